@@ -97,6 +97,14 @@ def patch_variants(pid):
             if meta.get("neutralised_by"):
                 continue
             out.append(dict(kind="mutant", prop=pid, id="%s/seed/%s" % (pid, d), patch=os.path.join(sd, d, "patch.diff"), expect=None, what=meta.get("title", ""), allow_error=False))
+    cd = os.path.join(base, "selftest_patches")
+    if os.path.isdir(cd):
+        # a stored refactoring plus one breaking edit inside the refactored code: the normalisation must not hide the break
+        for d in sorted(os.listdir(cd)):
+            mp = os.path.join(cd, d, "meta.json")
+            if os.path.exists(mp) and json.load(open(mp)).get("property") == pid:
+                out.append(dict(kind="mutant", prop=pid, id="%s/refactored-and-broken/%s" % (pid, d), patch=os.path.join(cd, d, "patch.diff"), expect=None,
+                                what=json.load(open(mp)).get("what", ""), allow_error=False))
     bd = os.path.join(base, "benign")
     if os.path.isdir(bd):
         for d in sorted(os.listdir(bd)):
